@@ -10,6 +10,7 @@
 mod crash;
 mod exec;
 mod model;
+mod wide;
 
 use exec::{final_signature, run_sequence, Backend, Fail, ObsMode, SeqOut};
 use model::{op_text, ops_from_json, ops_to_json, Item, Op};
@@ -443,6 +444,7 @@ fn main() {
                 }
             }
             Some("crash") => crash::replay(&ctx, &d),
+            Some("wide") => wide::replay(&ctx, &d, &ctx.root),
             _ => vcommon::machinery_failure("replay: unknown kind"),
         }
         ctx.finish("model_checking", "replay");
@@ -464,6 +466,7 @@ fn main() {
     for (ops, f, family) in fl {
         ctx.violation(family, &final_signature(&f, &ops), seq_detail(family, ctx.tier.name(), &ops, &f.what));
     }
+    wide::run_leg(&ctx, &ctx.root);
     crash::run_legs(&ctx);
 
     ctx.assume("kind discipline is store-specific and modelled as observed: the in-memory store rejects wrong-kind access with an error and no state change (a map emptied by remove keeps its kind, delete/clear reset it); the RocksDB store keeps the value and the map of an id in independent keyspaces");
